@@ -67,3 +67,6 @@ func Table(experimental bool) map[string]Entry {
 func IsArityError(err error) bool {
 	return err != nil && strings.Contains(err.Error(), "incorrect function arity")
 }
+
+// ExperimentalRaw is not observable through the public API.
+func ExperimentalRaw() map[string]Entry { return nil }
